@@ -172,12 +172,18 @@ func (r *Reader) decodeG3ScanLine1D() {
 
 	numEOL := 0
 
-	for xpos < r.Columns && r.err == nil {
+	// A run which ends in a make-up code is followed by its terminating
+	// code, also when the make-up code already fills the row.
+	pendingTerm := false
+
+	for (xpos < r.Columns || pendingTerm) && r.err == nil {
 		runLength, state := r.decodeRun(isWhite)
 
 		runLength = min(runLength, r.Columns-xpos)
 		r.fillRowBits(xpos, xpos+runLength, isWhite != r.BlackIs1)
 		xpos += runLength
+
+		pendingTerm = state == S_MakeUpW || state == S_MakeUpB || state == S_MakeUp
 
 		switch state {
 		case S_EOL:
